@@ -64,7 +64,9 @@ THEOREMS = [
     dict(name="Snow.C20.visf_run1D_eq_shelf_window_beyond", clause="REAL 1D model: window start beyond the last sampled time => whole VISF run = shelf run", strength="full"),
     dict(name="Snow.C20.visf_run1D_eq_shelf", clause="corollary: window met at NO real time (for a VISF input this means an empty window)", strength="lemma"),
     dict(name="Snow.C20.visf_run1D_eq_shelf_empty_window", clause="REAL 1D model: t_vac_duration <= 0 => run1D(VISF) = run1D(shelf)", strength="full"),
-    dict(name="Snow.C20.visf_cool1D_eq_shelf_before_window", clause="REAL 1D model: while dt*i <= t_vac_start*3600 the cooling loop (stop index, field, hazard, saved rows) is that of the shelf run - identical up to step n", strength="partial"),
+    dict(name="Snow.C20.visf_cool1D_eq_shelf_before_window", clause="REAL 1D model: while dt*i <= t_vac_start*3600 the cooling loop (stop index, field, hazard, saved rows) is that of the shelf run - identical up to step n", strength="lemma"),
+    dict(name="Snow.C20.visf_run1D_eq_shelf_before_window_both_stages", clause="REAL 1D model, window opening after nucleation (e.g. during solidification): shelf run nucleates at step iEnd, first m solidification step times <= window start  =>  the VISF run has the same cooling stage (nucleation step, field, hazard, every saved row), the same solidification-loop state after m iterations (field, ice, saved rows, bookkeeping), and those saved rows are the first rows of the solidification history of the whole VISF run", strength="full"),
+    dict(name="Snow.C20.solidAfter_is_run_loop", clause="link: the m-step loop state of the previous theorem at full length is the `sol` of run1DOn whose saved rows (all but the last) are the solidification part of the published history", strength="full"),
     dict(name="Snow.C20.fluxN_zero_at_equilibrium", clause="flux laws for ANY value of pi (Gen.FU.N_w, the run models' function): zero at equilibrium", strength="full"),
     dict(name="Snow.C20.fluxN_pos_iff", clause="... positive iff p_vap > p_vac (pi > 0)", strength="full"),
     dict(name="Snow.C20.fluxN_mono_pvap", clause="... strictly increasing in p_vap", strength="full"),
@@ -74,8 +76,9 @@ THEOREMS = [
     dict(name="Snow.C20.evap_cools_iff_1D", clause="REAL 1D model: inside the window Snow.qEvap <= 0 iff p_vap >= p_vac", strength="full"),
     dict(name="Snow.C20.evap_cools_iff", clause="inside the window q_e <= 0 iff p_vap >= p_vac (T_l = T_v > 0)", strength="full"),
     dict(name="monitored:triple_point_coincide", clause="the two curves coincide at the triple point (273.16 K): NO theorem, evaluated at Float on every run (relative gap <= 1e-6)", strength="monitored"),
-    dict(name="monitored:p_ice_le_p_liq_below", clause="p_ice <= p_liq below the triple point: NO theorem, evaluated on the 0.01 K grid 123-273.15 K on every run", strength="monitored"),
-    dict(name="monitored:visf_eq_shelf_2D_and_solidification_prefix", clause="2D runs and the solidification-stage prefix of 1D runs before the window: NO run-level theorem (2D model has only the q_e link and the q_e statement ties); real 1D pairs and one small real 2D pair (six in the thorough tier) are run end to end and compared on every run (rows before the window, inferred top flux at every step, whole run against the 2D model)", strength="monitored"),
+    dict(name="Snow.C20.p_ice_lt_p_liq_between", clause="monotone interpolation: p_ice(b) < p_liq(a), 123 <= a <= b <= 332  =>  p_ice < p_liq on the whole of [a,b] (from the two monotonicity theorems); turns the grid evaluation below into a statement about every real T of a grid cell", strength="conditional (the premise is evaluated at Float on the grid, not proved)"),
+    dict(name="monitored:p_ice_le_p_liq_below", clause="p_ice <= p_liq below the triple point: the numeric premise of p_ice_lt_p_liq_between (a fact about exp/log/tanh at given reals) has NO proof; it is evaluated at Float (relative margin >= 3e-4 against 1e-6 required) for every cell of the 0.01 K grid 123-273.05 K on every run, which with the theorem covers every real T in [123, 273.05] K; on (273.05, 273.15] K the curves are closer than one grid step and only the pointwise grid comparison is made", strength="monitored"),
+    dict(name="monitored:visf_eq_shelf_2D", clause="2D runs before / without the window: NO run-level theorem (the 2D model has the q_e link and the q_e statement ties only); one small real 2D pair (six in the thorough tier) is run end to end and compared on every run (rows before the window, inferred top flux at every step, whole run against the 2D model)", strength="monitored"),
     dict(name="Snow.C20.nonvacuous", clause="hypotheses are satisfiable (default VISF parameters)", strength="nonvacuity"),
 ]
 TRUSTED = [
@@ -92,9 +95,11 @@ ASSUMPTIONS = [
     "run-level clause 'outside the window a VISF run is identical to the shelf run': proved on the REAL 1D model "
     "(run1DOn) when the window is met at none of the sampled step times dt*i / dt*iEnd + dt*i (so also for a window "
     "beyond the process or between two samples) - visf_run1D_eq_shelf_sampled, _window_beyond, _empty_window; the "
-    "prefix before a window that does open is proved for the cooling loop only (visf_cool1D_eq_shelf_before_window); "
-    "the solidification-stage prefix and the 2D runs have no run-level theorem (monitored: real 1D pairs and a small "
-    "real 2D pair are run end to end and compared) - for 2D the q_e link and the ties of the whole "
+    "prefix before a window that does open is proved for both stages at the level of the loop states and their saved "
+    "rows (visf_run1D_eq_shelf_before_window_both_stages: cooling stage complete, first m solidification iterations, "
+    "saved rows = first rows of the whole run's solidification history; the published history is bufC ++ those rows "
+    "minus the last, by the definition of run1DOn - not restated as a theorem about Result1D.hist); "
+    "the 2D runs have no run-level theorem (monitored: a small real 2D pair is run end to end and compared) - for 2D the q_e link and the ties of the whole "
     "`if window: q_e = ... else: q_e = 0` statements are proved",
     "the abstract-loop theorems (runStage, body an arbitrary function of q_e) are kept as lemmas",
     "the flux laws are proved for Gen.FU.N_w with ANY positive value of pi; the run models' flux functions are that "
@@ -130,8 +135,13 @@ LEVEL_TEXT = (
     "the top node equals the shelf step; inside it q_e <= 0 iff p_vap >= p_vac (also on the real 1D model's qEvap); the flux "
     "laws hold for any positive value of pi, hence for the run models' own flux functions; the run models' qEvap (1D, "
     "2D) are this q_e at their flux, and on the real 1D model a VISF run whose window is met at none of the sampled "
-    "step times equals the shelf run. Partial: the prefix before an opening window (cooling loop only). NOT proved, only evaluated on every run (test): coincidence of the two curves at "
-    "the triple point (rel. 1e-6), p_ice <= p_liq on the 0.01 K grid below 273.15 K; 2D run-level identity.")
+    "step times equals the shelf run. The prefix before a window that opens later is proved for BOTH stages on the real 1D model (same cooling "
+    "stage, same solidification-loop state and saved rows up to the window; these rows are the first rows of the "
+    "whole run's solidification history). p_ice < p_liq on every real T of an interval follows from one comparison "
+    "of its end points (p_ice_lt_p_liq_between, proved from the two monotonicity theorems); the end-point "
+    "comparisons themselves are numeric facts evaluated at Float on every cell of the 0.01 K grid 123-273.05 K. "
+    "NOT proved, only evaluated on every run (test): those end-point comparisons, the pointwise comparison on "
+    "(273.05, 273.15] K, coincidence of the two curves at the triple point (rel. 1e-6); 2D run-level identity.")
 
 
 # the hand transcription of the two correlations used by the Snowing 1D/2D models (SnowModel/EvapFormulas.lean)
@@ -735,6 +745,14 @@ def predicates(case, impl):
             if t <= 273.15 and ps[i] > pl[i]:
                 out.append(Failure(clause="p_ice_le_p_liq_below", key="p_ice_le_p_liq_below|utils|",
                                    detail=f"p_ice({t:.2f})={ps[i]!r} > p_liq({t:.2f})={pl[i]!r}"))
+                break
+        # premise of the interpolation theorem p_ice_lt_p_liq_between on every grid cell [T_i, T_i+1] up to 273.05 K:
+        # p_ice at the UPPER end below p_liq at the LOWER end (then p_ice < p_liq on the whole cell, over the reals)
+        for i in range(len(T) - 1):
+            if T[i + 1] <= 273.05 and not ps[i + 1] < pl[i] * (1 - 1e-6):
+                out.append(Failure(clause="p_ice_le_p_liq_below", key="p_ice_le_p_liq_below|utils|interpolation",
+                                   detail=f"p_ice({T[i+1]:.2f})={ps[i+1]!r} is not below p_liq({T[i]:.2f})={pl[i]!r}: the "
+                                          f"cell [{T[i]:.2f},{T[i+1]:.2f}] K is not covered by p_ice_lt_p_liq_between"))
                 break
         for nm, arr in (("liquid", pl), ("solid", ps)):
             for i in range(len(T) - 1):
